@@ -286,6 +286,16 @@ func propC15(j *Job) {
 			j.Explore(fmt.Sprintf("B/%s/reenter-%s", mode.Name, what), callbackReenterScenario(a, b, what), Budget{K: 0}, nil)
 		}
 	}
+	// a writer racing Stream.Close: whichever writes are refused, the figures end at zero
+	for mi, mode := range modes {
+		if mi > 0 && !j.Thorough() {
+			break
+		}
+		j.Explore(fmt.Sprintf("B/%s/write-vs-close", mode.Name), concScenario(&concSpec{A: withBase(mode.A, 228, 0xFFFFFFFE, 4000), B: withBase(mode.B, 228, 0xFFFFFFF0, 4000), prog: "W1m R1 Xs"}), Budget{D: 1}, nil)
+	}
+	for _, mode := range modes {
+		j.Explore(fmt.Sprintf("B/%s/release-after-peer-reset/reopen", mode.Name), peerResetReleaseScenario(withBase(mode.A, 228, 9, 4000), withBase(mode.B, 228, 99, 4000), true), Budget{K: 0}, nil)
+	}
 	for _, mode := range modes {
 		j.Explore(fmt.Sprintf("B/%s/release-after-peer-reset", mode.Name), peerResetReleaseScenario(withBase(mode.A, 228, 9, 4000), withBase(mode.B, 228, 99, 4000)), Budget{K: 0}, nil)
 	}
@@ -309,7 +319,7 @@ func propC15(j *Job) {
 // delayed; the peer resets its direction of the lower-numbered stream, which unregisters that
 // stream at A.  The SACK that finally arrives covers chunks of both streams: the registered
 // stream must get its bytes released whatever happens to the unregistered one (F14).
-func peerResetReleaseScenario(a, b epCfg) *Scenario {
+func peerResetReleaseScenario(a, b epCfg, reopen ...bool) *Scenario {
 	return &Scenario{
 		Name:    "release-after-peer-reset",
 		Horizon: 60 * time.Second,
@@ -368,6 +378,20 @@ func peerResetReleaseScenario(a, b epCfg) *Scenario {
 			_, _ = s2.WriteSCTP(payload(2, 0, 300), PayloadTypeWebRTCBinary)
 			m.Sleep(100 * time.Millisecond)
 			_ = sb1.Close() // the peer resets its sending direction of stream 1
+			var s1n *Stream
+			if len(reopen) > 0 && reopen[0] {
+				// the identifier is closed locally too and opened again while the acknowledgements
+				// of the first incarnation are still missing: each incarnation is credited with
+				// its own bytes
+				m.WaitUntil("reset-at-A", 5*time.Second, func() bool { _, in := m.As[0].streams[1]; return !in })
+				_ = s1.Close()
+				m.Sleep(200 * time.Millisecond)
+				if sn, err := m.As[0].OpenStream(1, PayloadTypeWebRTCBinary); err == nil && sn != s1 {
+					s1n = sn
+					m.streamsSeen = append(m.streamsSeen, s1n)
+					_, _ = s1n.WriteSCTP(payload(1, 5, 120), PayloadTypeWebRTCBinary)
+				}
+			}
 			ok := m.WaitUntil("drained", 30*time.Second, func() bool { return drained(m.As[0]) })
 			// (the queues empty before the read loop has told the streams: let it finish the SACK)
 			m.S.WaitIdle()
@@ -381,6 +405,11 @@ func peerResetReleaseScenario(a, b epCfg) *Scenario {
 					m.Failf("buffered.zero", "stream 1 (unregistered by the peer's reset while its data was in flight): BufferedAmount=%d although everything was acknowledged", b1)
 				} else if cb1 == 0 {
 					m.Failf("callback.missing", "stream 1: the amount fell from 300 to 0 across the threshold 10 without a callback")
+				}
+				if s1n != nil {
+					if bn := s1n.BufferedAmount(); bn != 0 {
+						m.Failf("buffered.zero", "stream 1, second incarnation: BufferedAmount=%d although everything was acknowledged (bytes of the first incarnation were credited to the wrong one)", bn)
+					}
 				}
 				if b2 := s2.BufferedAmount(); b2 != 0 {
 					m.Failf("buffered.zero", "stream 2: BufferedAmount=%d although everything was acknowledged (a SACK that also covered chunks of the reset stream 1 did not release it)", b2)
